@@ -63,6 +63,7 @@ def run(repo: Repo, ctx) -> None:
     _r9(repo, ctx)
     from .c09 import last_state_rule
     last_state_rule(repo, ctx, 'C17.R10')
+    _r11(repo, ctx)
 
 
 def _run_main(repo: Repo, ctx) -> None:
@@ -1281,3 +1282,101 @@ def _r9(repo: Repo, ctx) -> None:
     if n < 4:
         raise AnalysisError(f'C17.R9: only {n} worker entry points that '
                             f'call __sync__ were found')
+
+
+
+def _r11(repo: Repo, ctx) -> None:
+    """C17.R11 the partial transfer computed for a worker goes to that worker.
+    `_compute_compile_preargs(method, W, ...)` diffs the request's state
+    against what the pool believes W holds; the result (and its sync_state
+    callback, bound to W) is meaningless for any other worker.  So a
+    `.call(*preargs, sync_state=..)` must be made on the worker the preargs
+    were computed for, and no rebinding of that worker name may reach the
+    call without passing a fresh computation."""
+    ctx.floor('C17.R11', 4)
+    n = 0
+    for modname, m in sorted(repo.modules.items()):
+        if not modname.startswith(PKG):
+            continue
+        for f in repo._funcs_of(m):
+            if f.name == '_compute_compile_preargs':
+                continue
+            comp_assigns = []
+            for st in ast.walk(f.node):
+                if not isinstance(st, ast.Assign):
+                    continue
+                v = st.value.value if isinstance(st.value, ast.Await) \
+                    else st.value
+                if isinstance(v, ast.Call) and (call_name(v) or '').split(
+                        '.')[-1] == '_compute_compile_preargs':
+                    comp_assigns.append((st, v))
+            if not comp_assigns:
+                continue
+            ctx.saw(f)
+            g = CFG(f.node)
+            for st, call in comp_assigns:
+                if len(call.args) < 2 or not isinstance(call.args[1],
+                                                        ast.Name):
+                    raise AnalysisError(f'C17.R11: {f.name}: worker argument '
+                                        f'of _compute_compile_preargs is '
+                                        f'not a plain name')
+                w = call.args[1].id
+                tg = st.targets[0]
+                if not (isinstance(tg, ast.Tuple) and len(tg.elts) == 2 and
+                        all(isinstance(e, ast.Name) for e in tg.elts)):
+                    raise AnalysisError(f'C17.R11: {f.name}: result of '
+                                        f'_compute_compile_preargs is not '
+                                        f'unpacked into two names')
+                pre, cb = tg.elts[0].id, tg.elts[1].id
+                comp_nodes = set(g.nodes_of(st))
+                sends = []
+                for x in g.nodes:
+                    for c in g.node_calls(x):
+                        if not (isinstance(c.func, ast.Attribute)
+                                and c.func.attr == 'call'):
+                            continue
+                        uses = any(isinstance(a, ast.Starred) and isinstance(
+                            a.value, ast.Name) and a.value.id == pre
+                            for a in c.args) or any(
+                            k.arg == 'sync_state' and isinstance(
+                                k.value, ast.Name) and k.value.id == cb
+                            for k in c.keywords)
+                        if uses:
+                            sends.append((x.id, c))
+                if not sends:
+                    raise AnalysisError(f'C17.R11: {f.name}: no worker call '
+                                        f'uses the computed preargs')
+                rebinds = [x.id for x in g.nodes
+                           if isinstance(x.ast, (ast.Assign, ast.AnnAssign,
+                                                 ast.AugAssign))
+                           and any(isinstance(t, ast.Name) and t.id in
+                                   (w, pre, cb) and isinstance(t.ctx,
+                                                               ast.Store)
+                                   for t in ast.walk(x.ast))
+                           and x.id not in comp_nodes]
+                for nid, c in sends:
+                    n += 1
+                    same = norm(c.func.value) == w
+                    stale = [r for r in rebinds if nid in g.reachable(
+                        [r], avoid=comp_nodes)]
+                    # the first binding of the worker is followed by the
+                    # computation on every path, so it never reaches a send
+                    ctx.ob('C17.R11', f'{modname.split(".")[-1]}.{f.name}:'
+                           f'preargs-go-to-their-worker', same and not stale,
+                           f'{f.name} sends a state transfer computed '
+                           f'against what `{w}` holds '
+                           + (f'to `{norm(c.func.value)}`' if not same else
+                              f'after `{w}` (or the transfer) was rebound at '
+                              f'line(s) '
+                              f'{[g.nodes[r].lineno for r in stale]} without '
+                              f'computing it again')
+                           + ': the receiving worker gets the parts that '
+                             'changed relative to another worker\'s state, '
+                             'and the acknowledgement updates the wrong '
+                             'belief record',
+                           f'{f.module.rel()}:{c.lineno}',
+                           sample=f'{w}.call(*{pre}, sync_state={cb}) right '
+                                  f'after _compute_compile_preargs(.., {w})')
+    if n < 4:
+        raise AnalysisError(f'C17.R11: only {n} sends of computed preargs '
+                            f'found')
